@@ -3,7 +3,7 @@ CONSTANTS
   N = 48
   Grans = {4, 8, 12, 16}
   Bufs = {16, 40}
-  Addrs = {0, 4, 8, 12, 16}
+  Addrs = {0, 4, 12, 16}
   Sizes = {0, 3, 8, 12, 16, 24, 32}
   MaxReqs = 2
   Grans2 = {4, 16}
